@@ -136,11 +136,17 @@ fn refs_txt(k: &[u64]) -> String {
     k.iter().map(|t| format!("{} 0 R", t)).collect::<Vec<_>>().join(" ")
 }
 
+/// the string object every dictionary / stream node carries, as PDF text and as bytes
+fn node_string(id: u64) -> String { format!("(text \\({}\\) of node {})", id % 7, id) }
+fn node_string_bytes(id: u64) -> Vec<u8> { format!("text ({}) of node {}", id % 7, id).into_bytes() }
+/// the data of a stream node (a form's content is a content stream)
+fn node_data(id: u64) -> Vec<u8> { format!("q {} 0 0 {} 0 0 cm Q % data of node {}", 1 + id % 5, 1 + id % 3, id).into_bytes() }
+
 fn node_body(id: u64, n: &GNode) -> Vec<u8> {
     match n.ty {
-        NT::Dict => format!("<< /P {} /K [{}] >>", id, refs_txt(&n.k)).into_bytes(),
+        NT::Dict => format!("<< /P {} /S {} /K [{}] >>", id, node_string(id), refs_txt(&n.k)).into_bytes(),
         NT::Arr => format!("[{} {}]", id, refs_txt(&n.k)).into_bytes(),
-        NT::Stm => stream_body(&format!("/P {} /K [{}]", id, refs_txt(&n.k)), format!("data of {}", id).as_bytes()),
+        NT::Stm => stream_body(&format!("/P {} /S {} /K [{}]", id, node_string(id), refs_txt(&n.k)), &node_data(id)),
         NT::Res => {
             let mut s = format!("<< /ColorSpace << /Id{} /DeviceRGB >>", id);
             if let Some(x) = n.a { s.push_str(&format!(" /XObject << /X0 {} 0 R >>", x)); }
@@ -151,8 +157,8 @@ fn node_body(id: u64, n: &GNode) -> Vec<u8> {
         NT::Form => {
             let mut d = String::from("/Type /XObject /Subtype /Form /BBox [0 0 1 1]");
             if let Some(r) = n.a { d.push_str(&format!(" /Resources {} 0 R", r)); }
-            d.push_str(&format!(" /P {} /K [{}]", id, refs_txt(&n.k)));
-            stream_body(&d, format!("q Q % form {}", id).as_bytes())
+            d.push_str(&format!(" /P {} /S {} /K [{}]", id, node_string(id), refs_txt(&n.k)));
+            stream_body(&d, &node_data(id))
         }
     }
 }
@@ -164,125 +170,281 @@ struct Layout {
     /// put the non-stream graph nodes into an object stream (needs xref_stream)
     objstm: bool,
     flate: bool,
-    /// standard security handler V1 / R2 (RC4, 40 bit), empty user password: stream data is encrypted with
-    /// the per-object key (the bodies this module writes hold no string objects outside streams)
-    encrypt: bool,
+    /// standard security handler: index into `crate::c06::doc::variants()` (R2 RC4-40 … R6 AES-256), empty user
+    /// password; every string and every stream is encrypted with the harness's own implementation of the standard
+    encrypt: Option<usize>,
+    /// V ≥ 4: the /EncryptMetadata flag (part of the key derivation)
+    encrypt_metadata: bool,
+    /// junk bytes before the header (all offsets in the file are relative to the header)
+    prefix: usize,
+    /// two revisions: some objects are first written with stale contents and replaced by an incremental update
+    revisions: bool,
+    /// seed of the writer's own choices (initialisation vectors, junk, which objects are stale)
+    seed: u64,
 }
 
-// ---------------------------------------------------------------------------------------------------
-// RC4 encryption of generated sources (independent of the library's crypt.rs; MD5 from the md5 crate)
+const PLAIN: Layout = Layout { xref_stream: false, objstm: false, flate: false, encrypt: None, encrypt_metadata: true, prefix: 0, revisions: false, seed: 0 };
 
-fn rc4(key: &[u8], data: &[u8]) -> Vec<u8> {
-    let mut s: Vec<u8> = (0..=255u8).collect();
-    let mut j: u8 = 0;
-    for i in 0..256 {
-        j = j.wrapping_add(s[i]).wrapping_add(key[i % key.len()]);
-        s.swap(i, j as usize);
-    }
-    let (mut i, mut j) = (0u8, 0u8);
-    data.iter().map(|b| {
-        i = i.wrapping_add(1);
-        j = j.wrapping_add(s[i as usize]);
-        s.swap(i as usize, j as usize);
-        b ^ s[s[i as usize].wrapping_add(s[j as usize]) as usize]
-    }).collect()
+fn random_layout(rng: &mut Rng, p_encrypt: (u64, u64)) -> Layout {
+    let xs = rng.chance(1, 2);
+    let nvar = crate::c06::doc::variants().len();
+    let encrypt = if rng.chance(p_encrypt.0, p_encrypt.1) {
+        // the six families evenly; within RC4 any key length
+        let fam = ["R2-RC4-40", "R3-RC4", "R4-RC4", "R4-AES128", "R5-AES256", "R6-AES256"][rng.usize(6)];
+        let c: Vec<usize> = (0..nvar).filter(|i| crate::c06::doc::variants()[*i].name == fam).collect();
+        Some(*rng.pick(&c))
+    } else { None };
+    Layout { xref_stream: xs, objstm: xs && rng.chance(1, 2), flate: rng.chance(1, 2), encrypt, encrypt_metadata: rng.chance(2, 3),
+        prefix: if rng.chance(1, 4) { 1 + rng.usize(300) } else { 0 }, revisions: rng.chance(1, 4), seed: rng.next() }
 }
 
-const PW_PAD: [u8; 32] = [0x28, 0xBF, 0x4E, 0x5E, 0x4E, 0x75, 0x8A, 0x41, 0x64, 0x00, 0x4E, 0x56, 0xFF, 0xFA, 0x01, 0x08,
-    0x2E, 0x2E, 0x00, 0xB6, 0xD0, 0x68, 0x3E, 0x80, 0x2F, 0x0C, 0xA9, 0xFE, 0x64, 0x53, 0x69, 0x7A];
-
-struct Crypt { key: Vec<u8>, o: Vec<u8>, u: Vec<u8>, id: Vec<u8>, p: i32 }
-
-fn crypt_setup() -> Crypt {
-    let id: Vec<u8> = (0..16u8).map(|i| i.wrapping_mul(17).wrapping_add(3)).collect();
-    let p: i32 = -4;
-    // Algorithm 3 (R2), owner password "owner", user password empty
-    let mut opw = b"owner".to_vec();
-    opw.extend_from_slice(&PW_PAD[..32 - 5]);
-    let ok = md5::compute(&opw).0[..5].to_vec();
-    let o = rc4(&ok, &PW_PAD);
-    // Algorithm 2 (R2)
-    let mut m = PW_PAD.to_vec();
-    m.extend_from_slice(&o);
-    m.extend_from_slice(&p.to_le_bytes());
-    m.extend_from_slice(&id);
-    let key = md5::compute(&m).0[..5].to_vec();
-    // Algorithm 4
-    let u = rc4(&key, &PW_PAD);
-    Crypt { key, o, u, id, p }
-}
-
-fn object_key(c: &Crypt, id: u64, gen: u64) -> Vec<u8> {
-    let mut m = c.key.clone();
-    m.extend_from_slice(&(id as u32).to_le_bytes()[..3]);
-    m.extend_from_slice(&(gen as u32).to_le_bytes()[..2]);
-    md5::compute(&m).0[..10].to_vec()
-}
-
-/// encrypt the data of a body produced by `stream_body` (`… >>\nstream\n<data>\nendstream`); RC4 keeps the length
-fn encrypt_stream_body(c: &Crypt, id: u64, body: &[u8]) -> Vec<u8> {
-    let marker = b">>\nstream\n";
-    let start = match body.windows(marker.len()).position(|w| w == marker) { Some(p) => p + marker.len(), None => return body.to_vec() };
-    let end = body.len() - b"\nendstream".len();
-    let mut out = body[..start].to_vec();
-    out.extend_from_slice(&rc4(&object_key(c, id, 0), &body[start..end]));
-    out.extend_from_slice(b"\nendstream");
-    out
+fn layout_label(l: &Layout) -> Vec<String> {
+    let mut v = vec![];
+    v.push(match l.encrypt { Some(i) => format!("source=encrypted:{}", crate::c06::doc::variants()[i].name), None => "source=not-encrypted".to_string() });
+    v.push(if l.objstm { "layout=object-streams" } else if l.xref_stream { "layout=xref-stream" } else { "layout=classic" }.to_string());
+    if l.prefix > 0 { v.push("source=behind-junk-prefix".into()); }
+    if l.revisions { v.push("source=two-revisions".into()); }
+    v
 }
 
 fn hex_string(b: &[u8]) -> String {
     format!("<{}>", b.iter().map(|x| format!("{:02X}", x)).collect::<String>())
 }
 
-/// objects 1 (catalog), 2 (pages), then `pages` (id, body) and `nodes`; returns the file
+/// a stream body produced by `stream_body`: (dictionary text without `/Length n >>`, data)
+fn split_stream_body(body: &[u8]) -> Option<(Vec<u8>, Vec<u8>)> {
+    let marker = b">>\nstream\n";
+    let p = body.windows(marker.len()).position(|w| w == marker)?;
+    let end = body.len().checked_sub(b"\nendstream".len())?;
+    let head = &body[..p];
+    let l = head.windows(8).rposition(|w| w == b"/Length ")?;
+    Some((head[..l].to_vec(), body[p + marker.len()..end].to_vec()))
+}
+
+/// the plaintext (still filter-encoded) data of every stream object, by object number: the ground truth the
+/// oracle compares imported streams with
+fn plain_streams(objects: &[(u64, Vec<u8>, bool)]) -> BTreeMap<u64, Vec<u8>> {
+    objects.iter().filter(|o| o.2).filter_map(|(id, b, _)| split_stream_body(b).map(|(_, d)| (*id, d))).collect()
+}
+
+/// a string object in literal or hexadecimal form (chosen by its content, so that both forms occur)
+fn string_object(b: &[u8]) -> Vec<u8> {
+    if b.iter().fold(0u32, |a, x| a.wrapping_mul(31).wrapping_add(*x as u32)) % 2 == 0 { return hex_string(b).into_bytes(); }
+    let mut o = vec![b'('];
+    for &c in b {
+        match c {
+            b'\\' => o.extend_from_slice(b"\\\\"),
+            b'(' => o.extend_from_slice(b"\\("),
+            b')' => o.extend_from_slice(b"\\)"),
+            b'\r' => o.extend_from_slice(b"\\r"),
+            b'\n' => o.extend_from_slice(b"\\n"),
+            _ => o.push(c),
+        }
+    }
+    o.push(b')');
+    o
+}
+
+/// pass every string object of PDF text (outside stream data) through `f`
+fn transform_strings(text: &[u8], f: &mut dyn FnMut(&[u8]) -> Vec<u8>) -> Vec<u8> {
+    let mut out = vec![];
+    let mut i = 0;
+    let n = text.len();
+    while i < n {
+        let b = text[i];
+        if b == b'(' {
+            let mut s = vec![];
+            let mut depth = 1;
+            i += 1;
+            while i < n && depth > 0 {
+                match text[i] {
+                    b'\\' if i + 1 < n => {
+                        i += 1;
+                        match text[i] {
+                            b'n' => s.push(b'\n'), b'r' => s.push(b'\r'), b't' => s.push(b'\t'), b'b' => s.push(8), b'f' => s.push(12),
+                            c @ b'0'..=b'7' => {
+                                let mut v = (c - b'0') as u32;
+                                let mut k = 0;
+                                while k < 2 && i + 1 < n && (b'0'..=b'7').contains(&text[i + 1]) { i += 1; v = v * 8 + (text[i] - b'0') as u32; k += 1; }
+                                s.push(v as u8);
+                            }
+                            c => s.push(c),
+                        }
+                    }
+                    b'(' => { depth += 1; s.push(b'('); }
+                    b')' => { depth -= 1; if depth > 0 { s.push(b')'); } }
+                    c => s.push(c),
+                }
+                i += 1;
+            }
+            out.extend_from_slice(&string_object(&f(&s)));
+        } else if b == b'<' && i + 1 < n && text[i + 1] == b'<' {
+            out.extend_from_slice(b"<<");
+            i += 2;
+        } else if b == b'<' {
+            let mut j = i + 1;
+            let mut digits = vec![];
+            while j < n && text[j] != b'>' { if !text[j].is_ascii_whitespace() { digits.push(text[j]); } j += 1; }
+            if digits.len() % 2 == 1 { digits.push(b'0'); }
+            let s = unhex(std::str::from_utf8(&digits).unwrap_or("")).unwrap_or_default();
+            out.extend_from_slice(&string_object(&f(&s)));
+            i = j + 1;
+        } else if b == b'>' && i + 1 < n && text[i + 1] == b'>' {
+            out.extend_from_slice(b">>");
+            i += 2;
+        } else {
+            out.push(b);
+            i += 1;
+        }
+    }
+    out
+}
+
+/// objects 1 (catalog), 2 (page tree root), then `objects` (number, body, is a stream); returns the file.
+/// Independent of pdf-rs: framing by `pdfwrite.rs`, encryption by the harness's implementation of the standard.
 fn write_doc(root_body: &[u8], objects: &[(u64, Vec<u8>, bool)], layout: Layout) -> Vec<u8> {
-    let mut w = PdfWriter::new(b"", "1.7");
+    use crate::c06::std_sec::*;
+    let mut wr = Rng::derive(layout.seed, "c20.writer", 0);
+    let junk: Vec<u8> = (0..layout.prefix).map(|_| b"junk before the header \n\r%!PS 0123456789 obj endobj"[wr.usize(51)]).collect();
+    let variant = layout.encrypt.map(|i| crate::c06::doc::variants()[i].clone());
+    let mut w = PdfWriter::new(&junk, if variant.as_ref().map(|v| v.v >= 5).unwrap_or(false) { "2.0" } else { "1.7" });
     w.free(0, 0, 65535);
-    let mut max_id = 2;
+    let mut max_id = objects.iter().map(|o| o.0).max().unwrap_or(2).max(2);
+    // --- encryption set-up
+    let enc = variant.as_ref().map(|var| {
+        // the password-dependent entries are expensive for R5 / R6: computed once per (variant, flag, /P) and process
+        thread_local! { static ENTRIES: std::cell::RefCell<BTreeMap<(usize, bool, i32), (Entries, Vec<u8>)>> = std::cell::RefCell::new(BTreeMap::new()); }
+        let p: i32 = *wr.pick(&[-4, -44, -1340, -1]);
+        let em = if var.v >= 4 { layout.encrypt_metadata } else { true };
+        let key = (layout.encrypt.unwrap_or(0), em, p);
+        let (entries, id0) = ENTRIES.with(|c| {
+            c.borrow_mut().entry(key).or_insert_with(|| {
+                let mut src = Rng::derive((0xC20u64 + key.0 as u64 * 31).wrapping_add(p as u64), "c20.writer.entries", em as u64);
+                let id0 = src.bytes(16);
+                let params = Params { r: var.r, n: var.n, cipher: var.cipher, p, id0: id0.clone(), encrypt_metadata: em };
+                let mut rnd = |k: usize| src.bytes(k);
+                (make_entries(&mut Rec::off(), &params, b"", b"owner", &mut rnd), id0)
+            }).clone()
+        });
+        let (fields, _) = crate::c06::doc::dict_fields(&mut wr, var, &entries, p, em);
+        (var.cipher, entries.file_key.clone(), fields, id0)
+    });
+    let mut ivs = Rng::derive(layout.seed, "c20.writer.iv", 0);
+    let mut encrypt_body = |id: u64, body: &[u8], is_stream: bool| -> Vec<u8> {
+        let (cipher, key) = match &enc { Some(e) => (e.0, e.1.clone()), None => return body.to_vec() };
+        let mut one = |data: &[u8]| -> Vec<u8> {
+            let mut iv = [0u8; 16];
+            iv.copy_from_slice(&ivs.bytes(16));
+            encrypt_object(&mut Rec::off(), cipher, &key, id, 0, data, &iv)
+        };
+        if is_stream {
+            match split_stream_body(body) {
+                Some((dict, data)) => {
+                    let d = transform_strings(&dict, &mut one);
+                    let stored = one(&data);
+                    let mut out = d;
+                    out.extend_from_slice(format!("/Length {} >>\nstream\n", stored.len()).as_bytes());
+                    out.extend_from_slice(&stored);
+                    out.extend_from_slice(b"\nendstream");
+                    out
+                }
+                None => body.to_vec(),
+            }
+        } else {
+            transform_strings(body, &mut one)
+        }
+    };
+    // --- which objects are first written stale (revision 1) and replaced in revision 2
+    let stale: BTreeSet<u64> = if layout.revisions { objects.iter().filter(|_| wr.chance(1, 3)).map(|o| o.0).collect() } else { BTreeSet::new() };
+    let stale_body = |id: u64, body: &[u8], is_stream: bool| -> Vec<u8> {
+        if is_stream {
+            match split_stream_body(body) {
+                Some((dict, data)) => {
+                    let mut d: Vec<u8> = data.iter().map(|b| b ^ 0x55).collect();
+                    d.extend_from_slice(format!(" stale {}", id).as_bytes());
+                    let mut out = dict;
+                    out.extend_from_slice(format!("/Length {} >>\nstream\n", d.len()).as_bytes());
+                    out.extend_from_slice(&d);
+                    out.extend_from_slice(b"\nendstream");
+                    out
+                }
+                None => body.to_vec(),
+            }
+        } else {
+            format!("<< /Stale {} /S (stale text) >>", id).into_bytes()
+        }
+    };
     w.object(1, 0, b"<< /Type /Catalog /Pages 2 0 R >>");
     w.object(2, 0, root_body);
-    let crypt = if layout.encrypt { Some(crypt_setup()) } else { None };
-    let mut members = vec![];
+    let use_objstm = layout.objstm && layout.xref_stream;
+    let mut members: Vec<(u64, Vec<u8>)> = vec![];
     for (id, body, is_stream) in objects {
-        max_id = max_id.max(*id);
-        if layout.objstm && layout.xref_stream && !*is_stream && crypt.is_none() {
-            members.push((*id, body.clone()));
-        } else if let (Some(c), true) = (&crypt, *is_stream) {
-            w.object(*id, 0, &encrypt_stream_body(c, *id, body));
+        if stale.contains(id) {
+            let b = stale_body(*id, body, *is_stream);
+            w.object(*id, 0, &encrypt_body(*id, &b, *is_stream));
+        } else if use_objstm && !*is_stream {
+            members.push((*id, body.clone())); // strings inside an object stream are not encrypted individually
         } else {
-            w.object(*id, 0, body);
+            w.object(*id, 0, &encrypt_body(*id, body, *is_stream));
         }
     }
     if !members.is_empty() {
         max_id += 1;
-        w.object_stream(max_id, &members, if layout.flate { StmFilter::Flate } else { StmFilter::None }, b"\n", "");
+        let stm = max_id;
+        let mut head = String::new();
+        let mut bodies = Vec::new();
+        for (id, b) in &members {
+            head.push_str(&format!("{} {} ", id, bodies.len()));
+            bodies.extend_from_slice(b);
+            bodies.push(b'\n');
+        }
+        let first = head.len();
+        let mut data = head.into_bytes();
+        data.extend_from_slice(&bodies);
+        let (f, data) = if layout.flate { ("/Filter /FlateDecode", zlib(&data)) } else { ("", data) };
+        let body = stream_body(&format!("/Type /ObjStm /N {} /First {} {}", members.len(), first, f), &data);
+        w.object(stm, 0, &encrypt_body(stm, &body, true));
+        for (i, (id, _)) in members.iter().enumerate() {
+            w.record(*id, Entry::Compressed { stm, idx: i as u64 });
+        }
     }
-    let trailer = match &crypt {
-        Some(c) => {
-            // the library reads /Encrypt only as an indirect object
+    let trailer = match &enc {
+        Some((_, _, fields, id0)) => {
+            // the encryption dictionary: an indirect object, never encrypted
             max_id += 1;
-            w.object(max_id, 0, format!("<< /Filter /Standard /V 1 /R 2 /O {} /U {} /P {} >>", hex_string(&c.o), hex_string(&c.u), c.p).as_bytes());
-            format!("/Root 1 0 R /Encrypt {} 0 R /ID [{} {}]", max_id, hex_string(&c.id), hex_string(&c.id))
+            let mut b = vec![];
+            crate::c06::doc::ser_opt(&fields.to_pv(), &mut |s: &[u8]| s.to_vec(), &mut wr, &mut b, true);
+            w.object(max_id, 0, &b);
+            format!("/Root 1 0 R /Encrypt {} 0 R /ID [{} {}]", max_id, hex_string(id0), hex_string(id0))
         }
         None => "/Root 1 0 R".to_string(),
     };
-    if layout.xref_stream {
-        max_id += 1;
-        w.finish(XrefFormat::Stream, max_id + 1, &trailer, &[], max_id);
-    } else {
-        w.finish(XrefFormat::Classic, max_id + 1, &trailer, &[], 0);
+    let fmt = if layout.xref_stream { XrefFormat::Stream } else { XrefFormat::Classic };
+    let size = max_id + 4;
+    w.finish(fmt, size, &trailer, &[], max_id + 1);
+    if !stale.is_empty() {
+        for (id, body, is_stream) in objects {
+            if stale.contains(id) {
+                w.object(*id, 0, &encrypt_body(*id, body, *is_stream));
+            }
+        }
+        w.finish(fmt, size, &trailer, &[], max_id + 2);
     }
     w.out
 }
 
 const PAGE_MIN: &str = "<< /Type /Page /Parent 2 0 R /MediaBox [0 0 10 10] /Resources << >> >>";
 
-fn graph_doc(g: &Graph, layout: Layout) -> Vec<u8> {
+fn graph_objects(g: &Graph) -> Vec<(u64, Vec<u8>, bool)> {
     let mut objs: Vec<(u64, Vec<u8>, bool)> = vec![(3, PAGE_MIN.as_bytes().to_vec(), false)];
     for (id, n) in g {
         objs.push((*id, node_body(*id, n), matches!(n.ty, NT::Stm | NT::Form)));
     }
-    write_doc(b"<< /Type /Pages /Kids [3 0 R] /Count 1 >>", &objs, layout)
+    objs
+}
+
+fn graph_doc(g: &Graph, layout: Layout) -> Vec<u8> {
+    write_doc(b"<< /Type /Pages /Kids [3 0 R] /Count 1 >>", &graph_objects(g), layout)
 }
 
 // ---------------------------------------------------------------------------------------------------
@@ -324,7 +486,33 @@ fn payload_of(p: &Primitive) -> Option<u64> {
 /// canonical description of what was created: one item per created object, keyed by the source object it
 /// is a copy of, kids translated back to source numbers. `sort_kids(old)`: compare as multiset (typed
 /// values are re-serialised field by field).
-fn canon_objects(objs: &[(u64, Option<u64>, Vec<u64>)], sort_kids: &dyn Fn(u64) -> bool) -> String {
+fn fnv8(b: &[u8]) -> String {
+    let mut h: u64 = 0xcbf29ce484222325;
+    for x in b { h ^= *x as u64; h = h.wrapping_mul(0x100000001b3); }
+    format!("{:08x}", h as u32)
+}
+
+/// payload digest of a copy as it is in the new document: stream data (raw, as stored) and the string /S
+fn content_digest<R: Resolve>(p: &Primitive, r: &R) -> String {
+    let (info, data) = match p {
+        Primitive::Stream(s) => (Some(&s.info), s.raw_data(r).ok().map(|d| fnv8(&d)).or(Some("unreadable".into()))),
+        Primitive::Dictionary(d) => (Some(d), None),
+        _ => (None, None),
+    };
+    let st = info.and_then(|d| d.get("S")).and_then(|x| x.as_string().ok()).map(|x| fnv8(x.as_bytes()));
+    format!("{}.{}", data.unwrap_or("-".into()), st.unwrap_or("-".into()))
+}
+
+/// the digest the copy of generated node `id` must have, from what the generator wrote (plaintext)
+fn expected_digest(kind: &str, id: u64) -> String {
+    match kind {
+        "Dict" => format!("-.{}", fnv8(&node_string_bytes(id))),
+        "Stm" | "Form" => format!("{}.{}", fnv8(&node_data(id)), fnv8(&node_string_bytes(id))),
+        _ => "-.-".to_string(),
+    }
+}
+
+fn canon_objects(objs: &[(u64, Option<u64>, Vec<u64>)], sort_kids: &dyn Fn(u64) -> bool, digests: &BTreeMap<u64, String>) -> String {
     let back: BTreeMap<u64, Option<u64>> = objs.iter().map(|(n, o, _)| (*n, *o)).collect();
     let mut items: Vec<String> = objs
         .iter()
@@ -340,7 +528,7 @@ fn canon_objects(objs: &[(u64, Option<u64>, Vec<u64>)], sort_kids: &dyn Fn(u64) 
             match old {
                 Some(o) => {
                     if sort_kids(*o) { ks.sort(); }
-                    format!("{}[{}]", o, ks.join(","))
+                    format!("{}[{}]#{}", o, ks.join(","), digests.get(new).cloned().unwrap_or_default())
                 }
                 None => format!("?nopayload{}[{}]", new, ks.join(",")),
             }
@@ -444,7 +632,8 @@ fn exec_clone(case: &Value) -> String {
         })
         .collect();
     let typed = |o: u64| matches!(ty(o).as_str(), "Res" | "Form");
-    format!("{}|{}", if rs.is_empty() { "-".to_string() } else { rs.join(",") }, canon_objects(&objs, &typed))
+    let digests: BTreeMap<u64, String> = created.iter().filter_map(|r| res.resolve(*r).ok().map(|p| (r.id, content_digest(&p, &res)))).collect();
+    format!("{}|{}", if rs.is_empty() { "-".to_string() } else { rs.join(",") }, canon_objects(&objs, &typed, &digests))
 }
 
 fn parse_edges(s: &str) -> Vec<(char, u64)> {
@@ -455,7 +644,12 @@ fn parse_edges(s: &str) -> Vec<(char, u64)> {
 }
 
 /// the model's answer in the same canonical form
-fn canon_model_clone(resp: &str, roots: &[(char, u64)], typed: &dyn Fn(u64) -> bool) -> String {
+fn model_digests(objs: &[(u64, Option<u64>, Vec<u64>)], kind_of: &dyn Fn(u64) -> String) -> BTreeMap<u64, String> {
+    objs.iter().filter_map(|(n, o, _)| o.map(|o| (*n, expected_digest(&kind_of(o), o)))).collect()
+}
+
+fn canon_model_clone(resp: &str, roots: &[(char, u64)], kind_of: &dyn Fn(u64) -> String) -> String {
+    let typed = &|o: u64| matches!(kind_of(o).as_str(), "Res" | "Form");
     let parts: Vec<&str> = resp.split('|').collect();
     if parts.len() != 3 {
         return format!("model:{}", resp);
@@ -471,7 +665,7 @@ fn canon_model_clone(resp: &str, roots: &[(char, u64)], typed: &dyn Fn(u64) -> b
         }).collect()
     };
     // the real run stops at the first panic; the model has none after the fixes
-    format!("{}|{}", if rs.is_empty() { "-".to_string() } else { rs.join(",") }, canon_objects(&objs, typed))
+    format!("{}|{}", if rs.is_empty() { "-".to_string() } else { rs.join(",") }, canon_objects(&objs, typed, &model_digests(&objs, kind_of)))
 }
 
 // =====================================================================================================
@@ -619,7 +813,6 @@ impl CloneCase {
     }
 }
 
-const PLAIN: Layout = Layout { xref_stream: false, objstm: false, flate: false, encrypt: false };
 
 fn run_clone_cases(driver: &Driver, st: &mut Stream, cases: &[CloneCase]) {
     let reqs: Vec<String> = cases.iter().map(|c| c.request()).collect();
@@ -638,8 +831,8 @@ fn run_clone_cases(driver: &Driver, st: &mut Stream, cases: &[CloneCase]) {
             None => { st.count("ran=in-process"); exec_clone(&c.case_json()) }
         };
         let g = &c.g;
-        let typed = |o: u64| g.get(&o).map(|n| matches!(n.ty, NT::Res | NT::Form)).unwrap_or(false);
-        let model = canon_model_clone(&resp[i], &c.roots, &typed);
+        let kind_of = |o: u64| g.get(&o).map(|n| ty_name(n.ty).to_string()).unwrap_or_default();
+        let model = canon_model_clone(&resp[i], &c.roots, &kind_of);
         let oc = model.split('|').next().unwrap_or("").to_string();
         st.count(&format!("outcome={}", if oc.contains("err") { "some-err" } else if oc == "-" { "no-roots" } else { "all-ok" }));
         st.count(if has_cycle(g) { "graph=cyclic" } else { "graph=acyclic" });
@@ -759,12 +952,10 @@ fn clone_random(driver: &Driver, seed: u64, n: u64) -> Stream {
         let miss = rng.chance(1, 5);
         let g = random_graph(&mut rng, cyc, miss);
         let roots = random_roots(&mut rng, &g);
-        let xs = rng.chance(1, 2);
-        let layout = Layout { xref_stream: xs, objstm: xs && rng.chance(1, 2), flate: rng.chance(1, 2), encrypt: rng.chance(1, 6) };
+        let layout = random_layout(&mut rng, (1, 3));
         st.count(&format!("nodes={}", g.len()));
         for (k, _) in &roots { st.count(&format!("root-kind={}", k)); }
-        if layout.encrypt { st.count("source=encrypted(RC4)"); }
-        st.count(if layout.objstm && !layout.encrypt { "layout=objstm" } else if layout.xref_stream { "layout=xref-stream" } else { "layout=classic" });
+        for l in layout_label(&layout) { st.count(&l); }
         cases.push(CloneCase { g, roots, layout });
     }
     run_clone_cases(driver, &mut st, &cases);
@@ -837,6 +1028,8 @@ struct PSpec {
     ops: Vec<OpSpec>,
     /// page-level /K references (land in `Page::other`)
     rest: Vec<u64>,
+    /// /Group << /CS [/ICCBased n 0 R] >> (oracle documents)
+    group_cs: Option<u64>,
     /// /Metadata reference, references inside /VP
     meta: Option<u64>,
     vp: Vec<u64>,
@@ -979,6 +1172,7 @@ impl PDoc {
         if let Some(m) = p.meta { rest.push(('p', m)); }
         for x in &p.vp { rest.push(('p', *x)); }
         for x in &p.rest { rest.push(('p', *x)); }
+        if let Some(c) = p.group_cs { rest.push(('p', c)); }
         format!("{}/{}/{}/{}/{}/{}/{}", if ops.is_empty() { "-".to_string() } else { ops.join(",") }, res.join("~"), edges_str(&rest),
             opt(self.chain(i, &|a| a.media)), opt(self.chain(i, &|a| a.crop)), p.trim.map(|v| v.to_string()).unwrap_or("!".into()), opt(self.chain(i, &|a| a.rotate)))
     }
@@ -997,6 +1191,23 @@ fn attrs_text(a: &Attrs) -> String {
 /// Object numbers: 2 root, pages 3.., content streams after them (two per page), /Pages nodes 30.., indirect
 /// resource dictionaries / category dictionaries / entries 40..99; graph nodes keep their numbers (≥ 100)
 fn page_doc(doc: &PDoc, g: &Graph, extra: &[(u64, Vec<u8>, bool)], layout: Layout) -> Vec<u8> {
+    let (root_body, objs) = page_doc_parts(doc, g, extra);
+    write_doc(&root_body, &objs, layout)
+}
+
+/// what the generator knows about a page document independently of any reader: the data of every stream object
+/// and the operations of every page, in plaintext
+fn ground_truth(doc: &PDoc, objs: &[(u64, Vec<u8>, bool)]) -> (Value, Value) {
+    let mut plain = serde_json::Map::new();
+    for (id, d) in plain_streams(objs) { plain.insert(id.to_string(), json!(hex(&d))); }
+    let mut content = serde_json::Map::new();
+    for (i, p) in doc.pages.iter().enumerate() {
+        content.insert(i.to_string(), json!(hex(if p.no_contents { String::new() } else { ops_text_of(&p.ops, doc.collide) }.as_bytes())));
+    }
+    (Value::Object(plain), Value::Object(content))
+}
+
+fn page_doc_parts(doc: &PDoc, g: &Graph, extra: &[(u64, Vec<u8>, bool)]) -> (Vec<u8>, Vec<(u64, Vec<u8>, bool)>) {
     let mut objs: Vec<(u64, Vec<u8>, bool)> = vec![];
     let np = doc.pages.len() as u64;
     let node_id = |n: usize| if n == 0 { 2 } else { 29 + n as u64 };
@@ -1041,6 +1252,7 @@ fn page_doc(doc: &PDoc, g: &Graph, extra: &[(u64, Vec<u8>, bool)], layout: Layou
         if let Some(m) = p.meta { d.push_str(&format!(" /Metadata {} 0 R", m)); }
         if !p.vp.is_empty() { d.push_str(&format!(" /VP [<< /Type /Viewport /K [{}] >>]", refs_txt(&p.vp))); }
         if !p.rest.is_empty() { d.push_str(&format!(" /K [{}]", refs_txt(&p.rest))); }
+        if let Some(c) = p.group_cs { d.push_str(&format!(" /Group << /S /Transparency /CS [/ICCBased {} 0 R] >>", c)); }
         d.push_str(" >>");
         objs.push((pid, d.into_bytes(), false));
     }
@@ -1065,7 +1277,7 @@ fn page_doc(doc: &PDoc, g: &Graph, extra: &[(u64, Vec<u8>, bool)], layout: Layou
         objs.push((*id, node_body(*id, n), matches!(n.ty, NT::Stm | NT::Form)));
     }
     for e in extra { objs.push(e.clone()); }
-    write_doc(&root_body, &objs, layout)
+    (root_body, objs)
 }
 
 /// entries of a resource dictionary as written by the library: `kind.name.payload:kids` (kids through `tr`)
@@ -1137,7 +1349,8 @@ fn exec_page(case: &Value) -> String {
     }).collect();
     let typed = |o: u64| matches!(ty(o).as_str(), "Res" | "Form");
     let clobber = if created.iter().any(|r| r.id < pre) { " !copy-took-a-used-number" } else { "" };
-    format!("{} |{}{}", page_strs.join(" "), canon_objects(&objs, &typed), clobber)
+    let digests: BTreeMap<u64, String> = created.iter().filter_map(|r| res.resolve(*r).ok().map(|p| (r.id, content_digest(&p, &res)))).collect();
+    format!("{} |{}{}", page_strs.join(" "), canon_objects(&objs, &typed, &digests), clobber)
 }
 
 /// case = {"kind":"frompage","doc":hex,"pages":[..]} → per page `ok/<entries>/<boxes>` | `err`
@@ -1177,7 +1390,8 @@ fn canon_model_frompage(resp: &str) -> String {
 }
 
 /// the model's `c20.tpage` answer in the same canonical form
-fn canon_model_page(resp: &str, typed: &dyn Fn(u64) -> bool) -> String {
+fn canon_model_page(resp: &str, kind_of: &dyn Fn(u64) -> String) -> String {
+    let typed = &|o: u64| matches!(kind_of(o).as_str(), "Res" | "Form");
     let parts: Vec<&str> = resp.split('|').collect();
     if parts.len() != 3 { return format!("model:{}", resp); }
     let objs = model_objects(parts[2]);
@@ -1193,7 +1407,7 @@ fn canon_model_page(resp: &str, typed: &dyn Fn(u64) -> bool) -> String {
         entries.sort();
         format!("ok/{}/{}/{}", entries.join(","), trs(f[2]), f[3])
     }).collect();
-    format!("{} |{}", page_strs.join(" "), canon_objects(&objs, typed))
+    format!("{} |{}", page_strs.join(" "), canon_objects(&objs, typed, &model_digests(&objs, kind_of)))
 }
 
 fn random_res_list(rng: &mut Rng, g: &Graph, all_kinds: bool) -> Vec<ResSpec> {
@@ -1286,6 +1500,7 @@ fn random_pdoc(rng: &mut Rng, g: &Graph, o: DocOpts, res_gen: &mut dyn FnMut(&mu
             ops: vec![],
             rest: (0..rng.below(3)).filter_map(|_| if ids.is_empty() { None } else { Some(*rng.pick(&ids)) }).collect(),
             meta: if !ids.is_empty() && rng.chance(1, 5) { Some(*rng.pick(&ids)) } else { None },
+            group_cs: None,
             vp: if !ids.is_empty() && rng.chance(1, 6) { vec![*rng.pick(&ids)] } else { vec![] },
             flate: rng.chance(1, 2),
             split: rng.chance(1, 4),
@@ -1391,8 +1606,8 @@ fn run_page_docs(driver: &Driver, st: &mut Stream, sf: &mut Stream, docs: &[(PDo
     for i in 0..cases.len() {
         let imp = match risky_map.remove(&i) { Some(a) => a, None => exec_page(&cases[i]) };
         let g = &docs[i].1;
-        let typed = |o: u64| g.get(&o).map(|n| matches!(n.ty, NT::Res | NT::Form)).unwrap_or(false);
-        let model = canon_model_page(&resp[i], &typed);
+        let kind_of = |o: u64| g.get(&o).map(|n| ty_name(n.ty).to_string()).unwrap_or_default();
+        let model = canon_model_page(&resp[i], &kind_of);
         st.count(if model.contains("err") { "outcome=some-err" } else { "outcome=all-ok" });
         if model != imp {
             st.case(&format!("{} # {}", reqs[i], cases[i]), &model, &imp, model.contains(':'));
@@ -1494,8 +1709,8 @@ fn page_streams(driver: &Driver, seed: u64, n: u64) -> (Stream, Stream) {
         let mut order: Vec<u32> = (0..np as u32).collect();
         rng.shuffle(&mut order);
         if rng.chance(1, 4) { let d = order[0]; order.push(d); }
-        let xs = rng.chance(1, 2);
-        let layout = Layout { xref_stream: xs, objstm: xs && rng.chance(1, 2), flate: rng.chance(1, 2), encrypt: rng.chance(1, 6) };
+        let layout = random_layout(&mut rng, (1, 3));
+        for l in layout_label(&layout) { st.count(&l); }
         let bytes = page_doc(&doc, &g, &[], layout);
         let pre = if rng.chance(1, 3) { 1 + rng.below(4) } else { 0 };
         let page_fields: Vec<String> = order.iter().map(|i| doc.page_model(*i as usize)).collect();
@@ -1523,8 +1738,8 @@ fn page_streams(driver: &Driver, seed: u64, n: u64) -> (Stream, Stream) {
     for i in 0..cases.len() {
         let imp = match risky_map.remove(&i) { Some(a) => a, None => exec_page(&cases[i]) };
         let g = &graphs[i];
-        let typed = |o: u64| g.get(&o).map(|n| matches!(n.ty, NT::Res | NT::Form)).unwrap_or(false);
-        let model = canon_model_page(&resp[i], &typed);
+        let kind_of = |o: u64| g.get(&o).map(|n| ty_name(n.ty).to_string()).unwrap_or_default();
+        let model = canon_model_page(&resp[i], &kind_of);
         st.count(if model.contains("err") { "outcome=some-err" } else { "outcome=all-ok" });
         if model != imp {
             st.case(&format!("{} # {}", reqs[i], cases[i]), &model, &imp, model.contains(':'));
@@ -1560,6 +1775,11 @@ struct Cmp<'a, RO: Resolve, RN: Resolve> {
     /// (signature, description)
     diffs: Vec<(String, String)>,
     steps: usize,
+    /// generated sources: the plaintext data of the source's stream objects, as the generator wrote them (not
+    /// as any reader sees them)
+    plain: Option<BTreeMap<u64, Vec<u8>>>,
+    /// what was compared with the ground truth: kind of stream → count
+    plain_checked: BTreeMap<String, u64>,
 }
 
 fn num_of(p: &Primitive) -> Option<f64> {
@@ -1665,7 +1885,23 @@ impl<'a, RO: Resolve, RN: Resolve> Cmp<'a, RO, RN> {
                 let pa = self.ro.resolve(*ra);
                 let pb = self.rn.resolve(*rb);
                 match (pa, pb) {
-                    (Ok(pa), Ok(pb)) => self.equiv(&format!("{}@{}", path, ra.id), &pa, &pb),
+                    (Ok(pa), Ok(pb)) => {
+                        // ground truth: the copy of a stream holds the source's plaintext bytes
+                        if let (Some(Some(want)), Primitive::Stream(sb)) = (self.plain.as_ref().map(|p| p.get(&ra.id).cloned()), &pb) {
+                            let nm = |k: &str| sb.info.get(k).and_then(|x| x.as_name().ok()).map(|x| x.to_string());
+                            let kind = if let Some(st) = nm("Subtype").filter(|s| s == "Image" || s == "Form" || s == "XML") { st }
+                                else if sb.info.get("Length1").is_some() { "FontFile".to_string() }
+                                else if sb.info.get("N").is_some() { "ICC".to_string() }
+                                else if path.contains("ToUnicode") { "ToUnicode".to_string() } else { "other".to_string() };
+                            *self.plain_checked.entry(format!("stream-vs-plaintext:{}{}", kind, if sb.info.get("Filter").is_some() { "(filtered)" } else { "" })).or_insert(0) += 1;
+                            match sb.raw_data(self.rn) {
+                                Ok(got) if got[..] == want[..] => {}
+                                Ok(got) => self.diff("stream-data-differs-from-plaintext", format!("{}: the copy (object {}) of stream {} holds {} bytes that are not the {} bytes the source was written from", path, rb.id, ra.id, got.len(), want.len())),
+                                Err(e) => self.diff("stream-data-unreadable", format!("{}: data of the copied stream cannot be read: {}", path, e)),
+                            }
+                        }
+                        self.equiv(&format!("{}@{}", path, ra.id), &pa, &pb)
+                    }
                     (Err(_), Ok(pb)) => { if !matches!(pb, Primitive::Null) { self.diff("copy-of-missing-object", format!("{}: source reference {} does not resolve but the copy does", path, ra.id)); } }
                     (Ok(pa), Err(e)) => {
                         if is_missing(&e) {
@@ -1729,6 +1965,14 @@ impl<'a, RO: Resolve, RN: Resolve> Cmp<'a, RO, RN> {
     }
     fn dicts(&mut self, path: &str, da: &Dictionary, db: &Dictionary, is_stream: bool) {
         let skip = |k: &str| is_stream && matches!(k, "Length" | "Filter" | "DecodeParms");
+        if self.plain.is_some() {
+            // generated nodes: /S is a known function of /P
+            if let (Some(Primitive::Integer(id)), Some(Primitive::String(sv))) = (da.get("P"), db.get("S")) {
+                if sv.as_bytes() != &node_string_bytes(*id as u64)[..] {
+                    self.diff("string-differs-from-plaintext", format!("{}: the copy of node {} holds the string {:?}", path, id, sv));
+                }
+            }
+        }
         for (k, va) in da.iter() {
             if skip(k.as_str()) { continue; }
             match db.get(k.as_str()) {
@@ -2042,7 +2286,9 @@ fn exec_import(case: &Value) -> Value {
     if new.num_pages() as usize != done.len() {
         failures.push(("page-count".into(), format!("{} pages imported, the new document has {}", done.len(), new.num_pages())));
     }
-    let mut cmp = Cmp { ro: &ro, rn: &rn, fwd: BTreeMap::new(), bwd: BTreeMap::new(), visited: BTreeSet::new(), diffs: vec![], steps: 0 };
+    let plain: Option<BTreeMap<u64, Vec<u8>>> = case.get("plain").and_then(|p| p.as_object()).map(|m| m.iter().filter_map(|(k, v)| Some((k.parse().ok()?, unhex(v.as_str()?)?))).collect());
+    let content_plain = case.get("content_plain").cloned().unwrap_or(Value::Null);
+    let mut cmp = Cmp { ro: &ro, rn: &rn, fwd: BTreeMap::new(), bwd: BTreeMap::new(), visited: BTreeSet::new(), diffs: vec![], steps: 0, plain, plain_checked: BTreeMap::new() };
     for (ix, (pi, opage)) in done.iter().enumerate() {
         let npage = match catch_unwind(AssertUnwindSafe(|| new.get_page(ix as u32))) {
             Ok(Ok(p)) => p,
@@ -2079,6 +2325,18 @@ fn exec_import(case: &Value) -> Value {
             Some(Err(e)) => { failures.push(("new-ops-unreadable".into(), format!("{}: the operations of the new page cannot be read: {}", tag, e))); continue; }
             None => vec![],
         };
+        // ground truth for the operations: what the generator wrote, parsed without any document
+        if let Some(h) = content_plain.get(pi.to_string()).and_then(|h| h.as_str()) {
+            if let Ok(want) = pdf::content::parse_ops(&unhex(h).unwrap_or_default(), &ro) {
+                bump(&mut stats, "operations-compared-with-plaintext");
+                if ops_text(&want) != ops_text(&nops) {
+                    let rt = pdf::content::serialize_ops(&want).ok().and_then(|d| pdf::content::parse_ops(&d, &ro).ok()).map(|o| ops_text(&o));
+                    if rt.as_ref() != Some(&ops_text(&nops)) {
+                        failures.push(("operations-differ-from-plaintext".into(), format!("{}: the new page has {} operations, the source page was written with {}", tag, nops.len(), want.len())));
+                    }
+                }
+            }
+        }
         let (ot, nt) = (ops_text(&oops), ops_text(&nops));
         *stats.entry("operations-compared".into()).or_insert(0) += ot.len() as u64;
         // property lists of marked-content operators may hold references: compared modulo renaming
@@ -2164,6 +2422,7 @@ fn exec_import(case: &Value) -> Value {
         }
     }
     stats.insert("object-pairs".into(), cmp.fwd.len() as u64);
+    for (k, v) in &cmp.plain_checked { stats.insert(k.clone(), *v); }
     let mut diffs = std::mem::take(&mut cmp.diffs);
     // --- closure from the new trailer
     let roots = Primitive::Array(vec![Primitive::Reference(new.trailer.root.get_ref().get_inner())]);
@@ -2256,6 +2515,12 @@ fn run_import_cases(or: &mut Oracle, seed: u64, stream: &str, cases: Vec<ImportC
                     continue;
                 }
                 let imported = v["imported"].as_u64().unwrap_or(0);
+                if let Some(min) = c.case.get("min_streams").and_then(|m| m.as_u64()) {
+                    let got: u64 = v["stats"].as_object().map(|m| m.iter().filter(|(k, _)| k.starts_with("stream-vs-plaintext")).map(|(_, n)| n.as_u64().unwrap_or(0)).sum()).unwrap_or(0);
+                    if imported > 0 && got < min {
+                        or.fail("witness-streams-not-compared", &format!("{}: only {} imported streams were compared with the plaintext (expected at least {})", c.label, got, min), replay.clone());
+                    }
+                }
                 match c.case.get("expect").and_then(|e| e.as_str()) {
                     Some("success") if imported == 0 => or.fail("witness-import-failed", &format!("{}: importing was expected to succeed: {}", c.label, v["stats"]), replay.clone()),
                     Some("no-success") if imported != 0 => or.fail("witness-import-succeeded", &format!("{}: importing was expected to end with an error", c.label), replay.clone()),
@@ -2309,6 +2574,8 @@ struct Rich {
     images: Vec<u64>,
     forms: Vec<u64>,
     ocgs: Vec<u64>,
+    iccs: Vec<u64>,
+    metas: Vec<u64>,
 }
 
 fn png_up_rows(rows: &[Vec<u8>]) -> Vec<u8> {
@@ -2324,7 +2591,7 @@ fn png_up_rows(rows: &[Vec<u8>]) -> Vec<u8> {
 }
 
 fn rich_objects(rng: &mut Rng, g: &Graph) -> Rich {
-    let mut r = Rich { objs: vec![], fonts: vec![], images: vec![], forms: vec![], ocgs: vec![] };
+    let mut r = Rich { objs: vec![], fonts: vec![], images: vec![], forms: vec![], ocgs: vec![], iccs: vec![], metas: vec![] };
     let gids: Vec<u64> = g.keys().cloned().collect();
     let mut next = 200u64;
     let mut id = || { next += 1; next };
@@ -2333,7 +2600,15 @@ fn rich_objects(rng: &mut Rng, g: &Graph) -> Rich {
         let f = id(); let d = id(); let tu = id(); let w = id();
         let base = ["Helvetica", "Times-Roman", "Courier", "ABCDEF+Custom"][i as usize % 4];
         r.objs.push((f, format!("<< /Type /Font /Subtype /Type1 /BaseFont /{} /Encoding /WinAnsiEncoding /FirstChar 32 /LastChar 34 /Widths {} 0 R /FontDescriptor {} 0 R /ToUnicode {} 0 R >>", base, w, d, tu).into_bytes(), false));
-        r.objs.push((d, format!("<< /Type /FontDescriptor /FontName /{} /Flags 32 /FontBBox [-10 -20 1000 900] /ItalicAngle 0 /Ascent 700 /Descent -200 /CapHeight 650 /StemV 80 >>", base).into_bytes(), false));
+        // an embedded font program (any bytes will do: nothing parses them on import)
+        let ff = if rng.chance(2, 3) {
+            let ffid = id();
+            let n = 20 + rng.usize(400);
+            let prog = rng.bytes(n);
+            r.objs.push((ffid, if rng.chance(1, 2) { stream_body(&format!("/Length1 {} /Filter /FlateDecode", prog.len()), &zlib(&prog)) } else { stream_body(&format!("/Length1 {}", prog.len()), &prog) }, true));
+            format!(" /{} {} 0 R", ["FontFile", "FontFile2", "FontFile3"][rng.usize(3)], ffid)
+        } else { String::new() };
+        r.objs.push((d, format!("<< /Type /FontDescriptor /FontName /{} /Flags 32 /FontBBox [-10 -20 1000 900] /ItalicAngle 0 /Ascent 700 /Descent -200 /CapHeight 650 /StemV 80{} >>", base, ff).into_bytes(), false));
         let cmap = format!("/CIDInit /ProcSet findresource begin\n1 beginbfchar\n<20> <00{:02X}>\nendbfchar\nend", 0x41 + i);
         r.objs.push((tu, if rng.chance(1, 2) { stream_body("/Filter /FlateDecode", &zlib(cmap.as_bytes())) } else { stream_body("", cmap.as_bytes()) }, true));
         r.objs.push((w, b"[250 333.5 408]".to_vec(), false));
@@ -2368,6 +2643,20 @@ fn rich_objects(rng: &mut Rng, g: &Graph) -> Rich {
         r.objs.push((im, body, true));
         r.images.push(im);
     }
+    // ICC profiles (reached through /Group /CS of pages and forms) and XMP metadata streams
+    for _ in 0..rng.below(3) {
+        let c = id();
+        let n = 30 + rng.usize(200);
+        let prof = rng.bytes(n);
+        r.objs.push((c, if rng.chance(1, 2) { stream_body("/N 3 /Alternate /DeviceRGB /Filter /FlateDecode", &zlib(&prof)) } else { stream_body("/N 3 /Alternate /DeviceRGB", &prof) }, true));
+        r.iccs.push(c);
+    }
+    for i in 0..rng.below(3) {
+        let m = id();
+        let xml = format!("<?xpacket begin='' id='W5M0MpCehiHzreSzNTczkc9d'?><x:xmpmeta xmlns:x='adobe:ns:meta/'><n>{}</n></x:xmpmeta><?xpacket end='w'?>", 1000 * i + rng.below(1000));
+        r.objs.push((m, stream_body("/Type /Metadata /Subtype /XML", xml.as_bytes()), true));
+        r.metas.push(m);
+    }
     // optional-content groups (targets of /Properties)
     for i in 0..rng.below(3) {
         let o = id();
@@ -2388,7 +2677,10 @@ fn rich_objects(rng: &mut Rng, g: &Graph) -> Rich {
         content.push_str("Q");
         let mut d = String::from("/Type /XObject /Subtype /Form /BBox [0 0 50 50]");
         if rng.chance(1, 2) { d.push_str(" /Matrix [1 0 0 1 2.5 3]"); }
-        if rng.chance(1, 2) { d.push_str(" /Group << /S /Transparency /CS /DeviceRGB >>"); }
+        if rng.chance(1, 2) {
+            if !r.iccs.is_empty() && rng.chance(1, 2) { d.push_str(&format!(" /Group << /S /Transparency /CS [/ICCBased {} 0 R] >>", rng.pick(&r.iccs))); }
+            else { d.push_str(" /Group << /S /Transparency /CS /DeviceRGB >>"); }
+        }
         if rng.chance(2, 3) {
             if rng.chance(1, 2) { let rid = id(); r.objs.push((rid, res.clone().into_bytes(), false)); d.push_str(&format!(" /Resources {} 0 R", rid)); }
             else { d.push_str(&format!(" /Resources {}", res)); }
@@ -2434,7 +2726,7 @@ fn shift_graph(g0: Graph) -> Graph {
 
 fn simple_page(res: Vec<ResSpec>, ops: Vec<OpSpec>, rest: Vec<u64>) -> PSpec {
     PSpec { attrs: Attrs { media: Some(5), crop: None, rotate: Some(90), res: Some(res) }, trim: None, parent: 0, res_mode: ResMode::Direct, ops, rest,
-        meta: None, vp: vec![], flate: false, split: false, no_contents: false, cat_indirect: 0, entry_indirect: false }
+        meta: None, group_cs: None, vp: vec![], flate: false, split: false, no_contents: false, cat_indirect: 0, entry_indirect: false }
 }
 
 /// all pages directly below the root
@@ -2547,10 +2839,58 @@ fn witnesses() -> Vec<ImportCase> {
     out
 }
 
+/// fixed encrypted / prefixed / updated sources (independent of VERIF_SEED): one page that carries every kind of
+/// stream a page can carry — filtered image, form with its own resources, font with program and /ToUnicode, ICC
+/// profile in the page group, XMP metadata, a split content stream — for every family of the security handler
+fn source_witnesses() -> Vec<ImportCase> {
+    let mut out = vec![];
+    let vars = crate::c06::doc::variants();
+    let fams = ["R2-RC4-40", "R3-RC4", "R4-RC4", "R4-AES128", "R5-AES256", "R6-AES256"];
+    let mut layouts: Vec<(String, Layout)> = vec![];
+    for (k, f) in fams.iter().enumerate() {
+        // the longest key of the family
+        let ix = (0..vars.len()).filter(|i| vars[*i].name == *f).last().unwrap();
+        layouts.push((format!("encrypted source {}", f), Layout { xref_stream: k % 2 == 0, objstm: k % 4 == 0, flate: true, encrypt: Some(ix), encrypt_metadata: k % 3 != 0, prefix: 0, revisions: false, seed: 100 + k as u64 }));
+    }
+    layouts.push(("source behind a junk prefix".into(), Layout { prefix: 137, ..PLAIN }));
+    layouts.push(("encrypted source behind a junk prefix, two revisions".into(), Layout { xref_stream: true, objstm: false, flate: false, encrypt: Some(vars.len() - 3), encrypt_metadata: true, prefix: 61, revisions: true, seed: 7 }));
+    layouts.push(("source in two revisions with object streams".into(), Layout { xref_stream: true, objstm: true, flate: true, revisions: true, seed: 9, ..PLAIN }));
+    for (k, (label, layout)) in layouts.into_iter().enumerate() {
+        let mut rng = Rng::derive(0xC20, "c20.source-witness", k as u64);
+        let mut g = Graph::new();
+        g.insert(100, GNode { ty: NT::Stm, k: vec![101], a: None, b: None });
+        g.insert(101, GNode { ty: NT::Dict, k: vec![], a: None, b: None });
+        // rich objects until there is at least one of everything
+        let rich = loop {
+            let r = rich_objects(&mut rng, &g);
+            if !r.forms.is_empty() && !r.iccs.is_empty() && !r.metas.is_empty() && r.images.len() >= 2 { break r; }
+        };
+        let res = vec![
+            ResSpec { kind: 1, name: 1, payload: 0, kids: vec![rich.fonts[0]], raw: None },
+            ResSpec { kind: 2, name: 1, payload: 0, kids: vec![rich.images[0]], raw: None },
+            ResSpec { kind: 2, name: 2, payload: 0, kids: vec![rich.images[1]], raw: None },
+            ResSpec { kind: 2, name: 3, payload: 0, kids: vec![*rich.forms.last().unwrap()], raw: None },
+            ResSpec { kind: 0, name: 1, payload: 11, kids: vec![100], raw: None },
+        ];
+        let mut p = simple_page(res, vec![OpSpec::Other(0), OpSpec::Use(1, 1, 0), OpSpec::Other(6), OpSpec::Use(2, 1, 0), OpSpec::Use(2, 2, 0), OpSpec::Use(2, 3, 0), OpSpec::Use(0, 1, 0), OpSpec::Other(1)], vec![100]);
+        p.meta = Some(rich.metas[0]);
+        p.group_cs = Some(rich.iccs[0]);
+        p.split = true;
+        p.flate = k % 2 == 1;
+        let pdoc = flat_doc(vec![p], true);
+        let (root_body, objs) = page_doc_parts(&pdoc, &g, &rich.objs);
+        let (plain, content_plain) = ground_truth(&pdoc, &objs);
+        let doc = write_doc(&root_body, &objs, layout);
+        out.push(ImportCase { label: format!("witness {}", label), case: json!({"kind": "import", "doc": hex(&doc), "password": "-", "pages": [0], "expect": "success", "plain": plain, "content_plain": content_plain, "min_streams": 7}), child: true, nontrivial: true });
+    }
+    out
+}
+
 fn import_generated(seed: u64, thorough: bool) -> Oracle {
     let mut or = Oracle::new("c20.import.generated");
     let mut cases = witnesses();
-    let n = if thorough { 10_000 } else { 1500 };
+    cases.extend(source_witnesses());
+    let n = if thorough { 10_000 } else { 1200 };
     for case in 0..n {
         let mut rng = Rng::derive(seed, "c20.import.generated", case);
         // one document in eight has a planted cycle or a dangling reference somewhere in its graph
@@ -2561,23 +2901,27 @@ fn import_generated(seed: u64, thorough: bool) -> Oracle {
         let all_kinds = rng.chance(1, 3);
         let pool = rich_pool(&mut rng, &g, &rich, all_kinds);
         let mut res_gen = |rng: &mut Rng| { let mut r: Vec<ResSpec> = pool.iter().filter(|_| rng.chance(2, 3)).cloned().collect(); rng.shuffle(&mut r); r };
-        let pdoc = random_pdoc(&mut rng, &g, DocOpts { all_kinds, max_pages: 4 }, &mut res_gen);
+        let mut pdoc = random_pdoc(&mut rng, &g, DocOpts { all_kinds, max_pages: 4 }, &mut res_gen);
+        for p in pdoc.pages.iter_mut() {
+            if !rich.metas.is_empty() && rng.chance(1, 2) { p.meta = Some(*rng.pick(&rich.metas)); }
+            if !rich.iccs.is_empty() && rng.chance(1, 2) { p.group_cs = Some(*rng.pick(&rich.iccs)); }
+        }
         let pages = &pdoc.pages;
-        let xs = rng.chance(1, 2);
-        let layout = Layout { xref_stream: xs, objstm: xs && rng.chance(2, 3), flate: rng.chance(1, 2), encrypt: rng.chance(1, 4) };
-        let doc = page_doc(&pdoc, &g, &rich.objs, layout);
+        let layout = random_layout(&mut rng, (1, 2));
+        let (root_body, objs) = page_doc_parts(&pdoc, &g, &rich.objs);
+        let (plain, content_plain) = ground_truth(&pdoc, &objs);
+        let doc = write_doc(&root_body, &objs, layout);
         let np = pages.len() as u32;
         let mut order: Vec<u32> = (0..np).collect();
         match rng.below(4) { 0 => {} 1 => order.reverse(), 2 => rng.shuffle(&mut order), _ => { rng.shuffle(&mut order); order.truncate(1 + rng.usize(np as usize)); } }
         if rng.chance(1, 5) { let d = order[0]; order.push(d); }
-        if layout.encrypt { or.count("source=encrypted(RC4)"); }
-        or.count(if layout.objstm && !layout.encrypt { "layout=object-streams" } else if layout.xref_stream { "layout=xref-stream" } else { "layout=classic" });
+        for l in layout_label(&layout) { or.count(&l); }
         or.count(if has_cycle(&g) { "graph=cyclic" } else { "graph=acyclic" });
         or.count(if all_kinds { "resources=all-categories" } else { "resources=handled-categories" });
         count_doc(&mut |k| or.count(k), &pdoc);
         cases.push(ImportCase {
             label: format!("generated #{} pages {:?}", case, order),
-            case: json!({"kind": "import", "doc": hex(&doc), "password": "-", "pages": order}),
+            case: json!({"kind": "import", "doc": hex(&doc), "password": "-", "pages": order, "plain": plain, "content_plain": content_plain}),
             child: has_cycle(&g) || thorough == false && case % 16 == 0,
             nontrivial: true,
         });
@@ -2596,8 +2940,8 @@ fn replay_correspondence(driver: &Driver, stream: &str, text: &str) -> Stream {
     let resp = driver.ask(&[req.to_string()]);
     let imp = match run_in_children(&[case.clone()], 20).pop() { Some(Ok(v)) => v.as_str().unwrap_or("bad-child-answer").to_string(), Some(Err(e)) => e, None => "not-run".into() };
     let types = &case["types"];
-    let typed = |o: u64| matches!(types[o.to_string()].as_str().unwrap_or(""), "Res" | "Form");
-    let model = if case["kind"] == "page" { canon_model_page(&resp[0], &typed) } else if case["kind"] == "frompage" { canon_model_frompage(&resp[0]) } else { canon_model_clone(&resp[0], &parse_edges(case["roots"].as_str().unwrap_or("-")), &typed) };
+    let kind_of = |o: u64| types[o.to_string()].as_str().unwrap_or("").to_string();
+    let model = if case["kind"] == "page" { canon_model_page(&resp[0], &kind_of) } else if case["kind"] == "frompage" { canon_model_frompage(&resp[0]) } else { canon_model_clone(&resp[0], &parse_edges(case["roots"].as_str().unwrap_or("-")), &kind_of) };
     st.case(text, &model, &imp, true);
     st
 }
@@ -2624,8 +2968,8 @@ pub fn run(driver: &Driver, seed: u64, thorough: bool, replay: Option<&serde_jso
     }
     let mut rep = Report::new("C20");
     rep.streams.push(clone_exhaustive(driver, if thorough { 3 } else { 2 }));
-    rep.streams.push(clone_random(driver, seed, if thorough { 100_000 } else { 15_000 }));
-    let (sp, sf) = page_streams(driver, seed, if thorough { 50_000 } else { 8000 });
+    rep.streams.push(clone_random(driver, seed, if thorough { 100_000 } else { 10_000 }));
+    let (sp, sf) = page_streams(driver, seed, if thorough { 50_000 } else { 6000 });
     rep.streams.push(sp);
     rep.streams.push(sf);
     let (ep, ef) = page_exhaustive(driver, thorough);
